@@ -14,9 +14,9 @@ NAMES = ['div', 'p', 'span', 'a', 'ul', 'li', 'b', 'em', 'x-y', 'section', 'dd']
 CLASSES = ['x', 'y', 'zed', 'X', 'a-b', 'é']
 IDS = ['a', 'b', 'main', 'A', '1st', 'i d']
 TEXTS = ['', ' ', '\n', ' \t\n', 'hello', 'hello world', 'x', 'a"b', "it's", 'אבג', 'مرحبا', '123', '  pad  ',
-         '\xa0', 'line\nbreak', 'end', ' ', 'abc\x0bdef', '١٢٣ abc', 'ab', 'cd', 'abcd', 'Hello']
+         '\xa0', 'line\nbreak', 'end', ' ', 'abc\x0bdef', '١٢٣ abc', 'ab', 'cd', 'abcd', 'Hello', 'say "hi"', "'q'", 'x"', "don'", 'b\\']
 ATTR_VALUES = ['', 'x', 'x y', 'en', 'en-US', 'de-DE-1996', 'a-b', 'a b c', 'X', 'val', 'val\n', ' x', 'x-', 'true', 'TRUE',
-               'é', 'http://e/x', '#frag', 'x\ty', '-', 'abc', 'ABC', 'ab', 'bc']
+               'é', 'http://e/x', '#frag', 'x\ty', '-', 'abc', 'ABC', 'ab', 'bc', 'say "hi"', "it's'", '"', "'", 'a\\']
 GENERIC_ATTRS = ['title', 'href', 'data-x', 'lang', 'dir', 'TITLE', 'rel', 'name', 'hidden', 'contenteditable']
 INPUT_TYPES = ['text', 'checkbox', 'radio', 'submit', 'hidden', 'number', 'range', 'date', 'month', 'week', 'time',
                'datetime-local', 'tel', 'email', 'url', 'search', 'password', 'button', '', 'TEXT', 'Radio', 'bogus']
@@ -81,6 +81,12 @@ class TGen:
                         kids.append(kids[-1])          # an identical twin right after it
                 else:
                     kids.append(self.text_node())
+        if not kids and r.random() < 0.25:
+            # childless elements with white-space-LIKE content: only [ \t\r\n\f] is CSS white space
+            kids = [('t', self.pick(['', ' ', '\n', '\xa0', '\x0b', '\u2003', '\x1c', '\u3000', ' \t\r\n\f', '\u200b', ' \xa0']))
+                    for _ in range(r.choice([1, 1, 2]))]
+            if r.random() < 0.3:
+                kids.insert(r.randrange(len(kids) + 1), self.pick([('c', 'x'), ('cdata', ' '), ('pi', 'php x')]))
         return ('e', name, self.attrs_generic(name), kids)
 
     # ---- forms / state pseudo-classes
@@ -182,7 +188,11 @@ class TGen:
                 kids.append(self.form(depth + 1))          # nested form (only constructible through the API)
             elif k < 0.25 and depth < 2:
                 inner = [self.form(depth + 1) if r.random() < 0.5 else self.control(depth + 1) for _ in range(r.randint(1, 3))]
-                kids.append(('e', 'iframe', {}, [('e', 'html', {}, [('e', 'body', {}, inner)])]))
+                ifr = ('e', 'iframe', {}, [('e', 'html', {}, [('e', 'body', {}, inner)])])
+                # sometimes as the last child of a wrapper that is the last child of its own parent (no trailing nodes)
+                for _ in range(r.choice([0, 0, 1, 2, 3])):
+                    ifr = ('e', self.pick(['div', 'span', 'fieldset']), {}, [ifr])
+                kids.append(ifr)
             else:
                 kids.append(self.control(depth))
         return ('e', 'form', {}, kids)
@@ -290,7 +300,16 @@ class TGen:
             ha['lang'] = self.pick(['en', 'de', ''])
         if r.random() < 0.3:
             ha['dir'] = self.pick(['rtl', 'ltr', 'auto'])
-        return ('e', 'html', ha, [('e', 'head', {}, head), ('e', 'body', {}, [self.langdir(1) for _ in range(r.randint(1, 3))])])
+        body = [self.langdir(1) for _ in range(r.randint(1, 3))]
+        if r.random() < 0.35:
+            # an embedded document (only case-preserving builders keep it): its elements must not see the outer
+            # document's language, <meta> pragma or direction
+            ih = {'lang': self.pick(['es', 'de'])} if r.random() < 0.3 else {}
+            ihead = [('e', 'meta', {'http-equiv': 'content-language', 'content': self.pick(['it', 'en'])}, [])] if r.random() < 0.3 else []
+            inner = ('e', 'html', ih, [('e', 'head', {}, ihead), ('e', 'body', {}, [('e', 'p', {}, [('t', 'inner')]), self.langdir(3)])])
+            body.insert(r.randrange(len(body) + 1), ('e', 'div', {}, [('e', 'iframe', {}, [inner])]))
+            body.append(('e', 'p', {}, [('t', 'after')]))
+        return ('e', 'html', ha, [('e', 'head', {}, head), ('e', 'body', {}, body)])
 
 
 # ---------------------------------------------------------------- materialisation
@@ -389,6 +408,15 @@ class XGen(TGen):
             if apf == 'xml':
                 an = 'lang'
             attrs[(apf + ':' + an) if apf else an] = self.pick(ATTR_VALUES + ['en', 'de-DE'])
+        if decl and r.random() < 0.25:
+            # the same local name twice on one element: without a namespace and in one, or in two namespaces, in either order
+            an = self.pick(['href', 'k', 'title', 'id'])
+            pfs = r.sample(list(decl), min(2, len(decl)))
+            pair = [an, pfs[0] + ':' + an] if (len(pfs) < 2 or r.random() < 0.5) else [pfs[0] + ':' + an, pfs[1] + ':' + an]
+            r.shuffle(pair)
+            for i, key in enumerate(pair):
+                attrs.pop(key, None)
+                attrs[key] = self.pick(['1', '2', 'x', '#n'])
         kids = []
         if depth < 4:
             for _ in range(r.choice([0, 1, 2, 2, 3])):
@@ -418,7 +446,8 @@ class XGen(TGen):
         """HTML5 document with inline SVG/MathML (html5lib assigns namespaces)."""
         r = self.r
         svg = ('e', 'svg', {'xlink:href': '#a', 'xml:lang': 'de'} if r.random() < 0.6 else {},
-               [('e', 'circle', {'xlink:href': self.pick(['#x', 'x']), 'href': 'y'} if r.random() < 0.7 else {}, []),
+               [('e', 'circle', dict(r.sample([('xlink:href', self.pick(['#x', 'x'])), ('href', 'y')], 2)) if r.random() < 0.7 else {}, []),
+                ('e', 'use', dict(r.sample([('href', '#n'), ('xlink:href', '#o')], 2)), []),
                 ('e', 'a', {'href': '#'}, [('t', 'link')]),
                 ('e', 'foreignObject', {}, [('e', 'p', {'lang': 'en'} if r.random() < 0.5 else {}, [('t', 'in svg')])])])
         math = ('e', 'math', {}, [('e', 'mi', {'class': 'x'}, [('t', 'x')])])
